@@ -4,11 +4,11 @@ use crate::support::*;
 use educe::Educe;
 use core::cmp::Ordering;
 #[derive(Educe)]
-#[educe(Ord, PartialOrd, PartialEq, Eq)]
-pub struct T { other: A<0>, data: A<0> }
+#[educe(PartialEq, PartialOrd, Eq)]
+pub struct T { #[educe(PartialOrd = false)] f: A<0>, #[educe(PartialOrd(method = m_pcmp))] builder: A<0>, #[educe(PartialOrd(method = m_pcmp))] arg: A<2> }
 
-pub fn values() -> Vec<T> { vec![T { other: A(0), data: A(0) }, T { other: A(0), data: A(1) }, T { other: A(0), data: A(7) }, T { other: A(1), data: A(0) }, T { other: A(1), data: A(1) }, T { other: A(1), data: A(7) }, T { other: A(7), data: A(0) }, T { other: A(7), data: A(1) }, T { other: A(7), data: A(7) }] }
-pub fn show(x: &T) -> String { #[allow(unused_variables)] match x { T { other: p0, data: p1 } => format!("T({},{})", sv(p0), sv(p1)) } }
-pub fn o_disc(x: &T) -> i128 { match x { T { other: _, data: _ } => 0 } }
-pub fn o_cmp(a: &T, b: &T) -> Ordering { match (a, b) { (T { other: a0, data: a1 }, T { other: b0, data: b1 }) => { let c = ::core::cmp::Ord::cmp(a0, b0); if c != Ordering::Equal { return c; } let c = ::core::cmp::Ord::cmp(a1, b1); if c != Ordering::Equal { return c; } Ordering::Equal } } }
-pub fn run(out: &mut Out) { let vs = values(); for (i, a) in vs.iter().enumerate() { for (j, b) in vs.iter().enumerate() { let e = o_cmp(a, b); let g = ::core::cmp::Ord::cmp(a, b); out.check(g == e, "ord_15", "cmp", || format!("cmp({}, {}) = {:?} expected {:?}", show(a), show(b), g, e)); let g2 = ::core::cmp::PartialOrd::partial_cmp(a, b); out.check(g2 == Some(e), "ord_15", "partial_is_some_cmp", || format!("partial_cmp({}, {}) = {:?} expected Some({:?})", show(a), show(b), g2, e)); } } }
+pub fn values() -> Vec<T> { vec![T { f: A(0), builder: A(0), arg: A(0) }, T { f: A(0), builder: A(0), arg: A(1) }, T { f: A(0), builder: A(0), arg: A(7) }, T { f: A(0), builder: A(1), arg: A(0) }, T { f: A(0), builder: A(1), arg: A(1) }, T { f: A(0), builder: A(1), arg: A(7) }, T { f: A(0), builder: A(7), arg: A(0) }, T { f: A(0), builder: A(7), arg: A(1) }, T { f: A(0), builder: A(7), arg: A(7) }, T { f: A(1), builder: A(0), arg: A(0) }, T { f: A(1), builder: A(0), arg: A(1) }, T { f: A(1), builder: A(0), arg: A(7) }, T { f: A(1), builder: A(1), arg: A(0) }, T { f: A(1), builder: A(1), arg: A(1) }, T { f: A(1), builder: A(1), arg: A(7) }, T { f: A(1), builder: A(7), arg: A(0) }, T { f: A(1), builder: A(7), arg: A(1) }, T { f: A(1), builder: A(7), arg: A(7) }, T { f: A(7), builder: A(0), arg: A(0) }, T { f: A(7), builder: A(0), arg: A(1) }, T { f: A(7), builder: A(0), arg: A(7) }, T { f: A(7), builder: A(1), arg: A(0) }, T { f: A(7), builder: A(1), arg: A(1) }, T { f: A(7), builder: A(1), arg: A(7) }, T { f: A(7), builder: A(7), arg: A(0) }, T { f: A(7), builder: A(7), arg: A(1) }, T { f: A(7), builder: A(7), arg: A(7) }] }
+pub fn show(x: &T) -> String { #[allow(unused_variables)] match x { T { f: p0, builder: p1, arg: p2 } => format!("T({},{},{})", sv(p0), sv(p1), sv(p2)) } }
+pub fn o_disc(x: &T) -> i128 { match x { T { f: _, builder: _, arg: _ } => 0 } }
+pub fn o_pcmp(a: &T, b: &T) -> Option<Ordering> { match (a, b) { (T { f: a0, builder: a1, arg: a2 }, T { f: b0, builder: b1, arg: b2 }) => { match m_pcmp(a1, b1) { Some(Ordering::Equal) => (), x => return x } match m_pcmp(a2, b2) { Some(Ordering::Equal) => (), x => return x } Some(Ordering::Equal) } } }
+pub fn run(out: &mut Out) { let vs = values(); for (i, a) in vs.iter().enumerate() { for (j, b) in vs.iter().enumerate() { let e = o_pcmp(a, b); let g = ::core::cmp::PartialOrd::partial_cmp(a, b); out.check(g == e, "ord_15", "partial_cmp", || format!("partial_cmp({}, {}) = {:?} expected {:?}", show(a), show(b), g, e)); } } }
